@@ -13,8 +13,9 @@ VARIABLES cfg,        \* sequence of module records [interval, slow, dmax, polle
           dl,         \* [module index -> deadline for the start of the next doPoll]
           lastMain,   \* [module index -> start of the last doPoll]
           rdl,        \* set of [m, p, t]: deadline for the next poll of parameter p of module m
-          polled      \* set of [m, fn]: functions called before `started` (start-up bookkeeping)
-pvars == <<cfg, started, nstarted, eff, fast, dl, lastMain, rdl, polled>>
+          polled,     \* set of [m, fn]: functions called before `started` (start-up bookkeeping)
+          ep, cnt, extra   \* [module index -> ...] start of the current interval epoch, main polls since then, triggers since then
+pvars == <<cfg, started, nstarted, eff, fast, dl, lastMain, rdl, polled, ep, cnt, extra>>
 
 NM == Len(cfg)
 Mods == 1 .. NM
@@ -29,11 +30,12 @@ SlowBound(m) == 2 * cfg[m].slow + (NPolled + 2) * FullTurn
 ToSetS(s) == {s[n] : n \in 1 .. Len(s)}
 
 PInit == /\ cfg = <<>> /\ started = FALSE /\ nstarted = 0 /\ eff = <<>> /\ fast = <<>> /\ dl = <<>> /\ lastMain = <<>>
-         /\ rdl = {} /\ polled = {}
+         /\ rdl = {} /\ polled = {} /\ ep = <<>> /\ cnt = <<>> /\ extra = <<>>
 
 Cfg(c) == /\ cfg = <<>> /\ cfg' = c
           /\ eff' = [m \in 1 .. Len(c) |-> c[m].interval] /\ fast' = [m \in 1 .. Len(c) |-> FALSE]
           /\ dl' = [m \in 1 .. Len(c) |-> 0] /\ lastMain' = [m \in 1 .. Len(c) |-> 0]
+          /\ ep' = [m \in 1 .. Len(c) |-> 0] /\ cnt' = [m \in 1 .. Len(c) |-> 0] /\ extra' = [m \in 1 .. Len(c) |-> 0]
           /\ UNCHANGED <<started, nstarted, rdl, polled>>
 
 (* the start-up round is over: from now on the bounds apply *)
@@ -43,7 +45,12 @@ Started(t) == /\ nstarted = 0                                    \* exactly once
               /\ lastMain' = [m \in Mods |-> t]
               /\ rdl' = {[m |-> m, p |-> p, t |-> t + SlowBound(m)] : m \in Mods, p \in {} } \cup
                         UNION {{[m |-> m, p |-> cfg[m].polled[k], t |-> t + SlowBound(m)] : k \in 1 .. Len(cfg[m].polled)} : m \in Mods}
+              /\ ep' = [m \in Mods |-> t] /\ cnt' = [m \in Mods |-> 0] /\ extra' = [m \in Mods |-> 0]
               /\ UNCHANGED <<cfg, eff, fast, polled>>
+
+(* the interval is also respected from below: since the last change of the effective interval I of a module *)
+(* (epoch), the number of its main polls is at most elapsed / I + 2, plus one per explicit trigger          *)
+NotFaster(t, m) == (cnt[m] + 1) * eff[m] <= (t - ep[m]) + (2 + extra[m]) * eff[m]
 
 (* a call made by the poll thread *)
 Call(t, m, fn) ==
@@ -52,18 +59,19 @@ Call(t, m, fn) ==
       THEN \* start-up: configured writes come before the first read / poll of the module
            /\ (fn = "write" => ~\E x \in polled : x.m = m)
            /\ polled' = (IF fn = "write" THEN polled ELSE polled \cup {[m |-> m, fn |-> fn]})
-           /\ UNCHANGED <<dl, lastMain, rdl>>
+           /\ UNCHANGED <<dl, lastMain, rdl, cnt>>
       ELSE /\ fn # "write"                                       \* no configured write after the first round
            /\ IF fn = "doPoll"
               THEN /\ t <= dl[m]                                 \* MainBound / IntervalChangeNextWake
+                   /\ NotFaster(t, m) /\ cnt' = [cnt EXCEPT ![m] = @ + 1]
                    /\ dl' = [dl EXCEPT ![m] = t + eff[m] + FullTurn]
                    /\ lastMain' = [lastMain EXCEPT ![m] = t]
                    /\ UNCHANGED rdl
               ELSE /\ \A x \in rdl : (x.m = m /\ x.p = fn) => t <= x.t        \* SlowBound
                    /\ rdl' = {x \in rdl : ~(x.m = m /\ x.p = fn)} \cup {[m |-> m, p |-> fn, t |-> t + SlowBound(m)]}
-                   /\ UNCHANGED <<dl, lastMain>>
+                   /\ UNCHANGED <<dl, lastMain, cnt>>
            /\ UNCHANGED polled
-   /\ UNCHANGED <<cfg, started, nstarted, eff, fast>>
+   /\ UNCHANGED <<cfg, started, nstarted, eff, fast, ep, extra>>
 
 (* run-time change of the poll interval / fast polling: effective from the next wake-up *)
 Change(t, m, newint, fastflag, isfast) ==
@@ -73,7 +81,11 @@ Change(t, m, newint, fastflag, isfast) ==
    /\ fast' = [fast EXCEPT ![m] = IF isfast THEN fastflag ELSE @]
    /\ dl' = [dl EXCEPT ![m] = IF i2 < eff[m] THEN (IF t + i2 + FullTurn < @ THEN t + i2 + FullTurn ELSE @)
                               ELSE IF i2 > eff[m] THEN lastMain[m] + i2 + FullTurn + (IF t > lastMain[m] THEN t - lastMain[m] ELSE 0) ELSE @]
+   /\ IF i2 # eff[m] THEN ep' = [ep EXCEPT ![m] = t] /\ cnt' = [cnt EXCEPT ![m] = 0] /\ extra' = [extra EXCEPT ![m] = 0]
+      ELSE UNCHANGED <<ep, cnt, extra>>
    /\ UNCHANGED <<cfg, started, nstarted, lastMain, rdl, polled>>
+Trigger(m) == extra' = [extra EXCEPT ![m] = @ + 1]
+              /\ UNCHANGED <<cfg, started, nstarted, eff, fast, dl, lastMain, rdl, polled, ep, cnt>>
 
 (* end of the observation: the thread is alive, died of no exception, and nothing is overdue *)
 End(t, alive, excs) ==
